@@ -200,7 +200,7 @@ def corpus():
     action changes the optimal value (the optimal action is the middle label).  Returns [(inst, [pair orders])]."""
     F = Fraction
     out = []
-    i1 = Inst(2, 3, [[F(1), F(3), F(1, 2)], [F(0), F(2), F(1, 5)]],
+    i1 = Inst(2, 3, [[F(1), F(3), F(0)], [F(0), F(2), F(1)]],
               [[[F(9, 10), F(1, 10)], [F(1, 5), F(4, 5)], [F(1, 2), F(1, 2)]], [[F(1), F(0)], [F(3, 5), F(2, 5)], [F(3, 10), F(7, 10)]]],
               F(9, 10), False, "corpus")
     out.append((i1, [[(0, 0), (0, 2), (0, 1), (1, 0), (1, 2), (1, 1)], [(0, 2), (0, 1), (0, 0), (1, 2), (1, 1), (1, 0)]]))
@@ -350,8 +350,10 @@ def dressings(form, inst, rng):
     def with_(i, val):
         a = list(args); a[i] = val; return a
     out.append(("R:list", with_(0, np.asarray(R).tolist())))
-    out.append(("R:float32", with_(0, np.asarray(R).astype(np.float32))))
-    if not np.isinf(np.asarray(R)).any():
+    r_int = all(x is None or Fraction(x).denominator == 1 for row in inst.R for x in row)
+    if r_int:
+        out.append(("R:float32", with_(0, np.asarray(R).astype(np.float32))))
+    if r_int and not np.isinf(np.asarray(R)).any():
         out.append(("R:int32", with_(0, np.asarray(R).astype(np.int32))))
     big = np.full((2 * R.shape[0],) + R.shape[1:], 7.0); big[::2] = R
     out.append(("R:noncontiguous view", with_(0, big[::2])))
@@ -552,6 +554,109 @@ def expected_errors(ctx):
             ctx.fail("expected_error", "wrong exception for: " + name, {"case": name}, repr(e), "ValueError")
 
 
+
+# ------------------------------------------------------------------ result aliasing across calls (shared with c01.py)
+class Keeper:
+    """keeps returned arrays uncopied together with an immediate deep copy"""
+    def __init__(self):
+        self.items = []
+
+    @staticmethod
+    def _buf(x):
+        return x.data if hasattr(x, "toarray") else x
+
+    @staticmethod
+    def _val(x):
+        return x.toarray() if hasattr(x, "toarray") else np.asarray(x)
+
+    def keep(self, name, x):
+        self.items.append((name, x, self._val(x).copy()))
+        return x
+
+    def overwritten(self):
+        return [nm for nm, x, c in self.items if not np.array_equal(self._val(x), c)]
+
+    def aliases(self, others=()):
+        """pairs of kept results (of different calls) that share memory, and results sharing memory with `others`"""
+        bad = []
+        for i, (n1, x1, _) in enumerate(self.items):
+            for n2, x2, _ in self.items[i + 1:]:
+                if n1.split("#")[0] != n2.split("#")[0] and np.shares_memory(self._buf(x1), self._buf(x2)):
+                    bad.append((n1, n2))
+            for n2, x2 in others:
+                if isinstance(self._buf(x2), np.ndarray) and np.shares_memory(self._buf(x1), self._buf(x2)):
+                    bad.append((n1, n2))
+        return bad
+
+    def scribble(self):
+        for nm, x, c in self.items:
+            b = self._buf(x)
+            if isinstance(b, np.ndarray) and b.flags.writeable and b.size:
+                b[...] = -7 if b.dtype.kind in "iu" else -12345.678
+
+
+def alias_audit(ctx, inst, form, ddp, inp, rng):
+    """KEEP-AND-RECHECK, SCRIBBLE and shares_memory for every entry point of C09 that returns arrays
+    (including the operator returned by T_sigma and the objects returned by the conversions)"""
+    from quantecon.markov import DiscreteDP, backward_induction
+    lt1 = inst.beta < 1
+    v1 = np.array([float(rng.randrange(-5, 6)) for _ in range(inst.n)]); v2 = v1[::-1].copy() + 1.0
+    sg1 = np.array([rng.choice(inst.feasible(s_)) for s_ in range(inst.n)]); sg2 = np.array([inst.feasible(s_)[-1] for s_ in range(inst.n)])
+    snap = snapshot_args(form.args)
+
+    def run_calls(d, K):
+        """the same sequence of calls (same shapes, different inputs); K keeps every returned array"""
+        T1 = d.T_sigma(sg1)
+        K.keep("T_sigma(sg1)(v1)#a", T1(v1)); K.keep("T_sigma(sg1)(v2)#b", T1(v2))
+        T2 = d.T_sigma(sg2)
+        K.keep("T_sigma(sg2)(v1)#c", T2(v1)); K.keep("T_sigma(sg1)(v1) again#d", T1(v1))
+        K.keep("bellman_operator(v1)#a", d.bellman_operator(v1)); K.keep("bellman_operator(v2)#b", d.bellman_operator(v2))
+        K.keep("compute_greedy(v1)#a", d.compute_greedy(v1)); K.keep("compute_greedy(v2)#b", d.compute_greedy(v2))
+        for tag, sg in (("sg1#a", sg1), ("sg2#b", sg2)):
+            R_, Q_ = d.RQ_sigma(sg)
+            K.keep("RQ_sigma R " + tag, R_); K.keep("RQ_sigma Q " + tag, Q_)
+            K.keep("controlled_mc.P " + tag, d.controlled_mc(sg).P)
+            if lt1:
+                K.keep("evaluate_policy " + tag, d.evaluate_policy(sg))
+        for tag, vv in (("v1#a", v1), ("v2#b", v2)):
+            V_, S_ = backward_induction(d, 2, vv)
+            K.keep("backward_induction vs " + tag, V_); K.keep("backward_induction sigmas " + tag, S_)
+        for tag in ("#a", "#b"):
+            a_ = d.to_sa_pair_form(sparse=False); p_ = d.to_product_form()
+            if a_ is not d:
+                K.keep("to_sa_pair_form R " + tag, a_.R); K.keep("to_sa_pair_form Q " + tag, a_.Q)
+                K.keep("to_sa_pair_form s_indices " + tag, a_.s_indices); K.keep("to_sa_pair_form a_indices " + tag, a_.a_indices)
+            if p_ is not d:
+                K.keep("to_product_form R " + tag, p_.R); K.keep("to_product_form Q " + tag, p_.Q)
+        return K
+
+    K = run_calls(ddp, Keeper())
+    ow = K.overwritten()
+    if ow:
+        ctx.fail("result_overwritten_by_later_call", "an array returned earlier was changed by a later call on the same object: " + "; ".join(ow[:4]),
+                 dict(inp, v1=v1, v2=v2, sigma1=sg1, sigma2=sg2, overwritten=ow), None, None)
+    attrs = [("ddp.R", ddp.R), ("ddp.Q", ddp.Q)] + [("constructor argument %d" % i_, a_) for i_, a_ in enumerate(form.args) if isinstance(a_, np.ndarray) or hasattr(a_, "toarray")] \
+        + [("v1", v1), ("v2", v2), ("sigma1", sg1), ("sigma2", sg2)]
+    al = K.aliases(attrs)
+    # documented / harmless: controlled_mc(sigma).P is the Q_sigma of ITS OWN call only
+    al = [p_ for p_ in al if not ("controlled_mc.P" in p_[0] or "controlled_mc.P" in p_[1])]
+    if al:
+        ctx.fail("result_aliasing", "results of different calls (or a result and an argument / stored attribute) share memory: %r" % (al[:3],),
+                 dict(inp, pairs=al[:6]), None, None)
+    # SCRIBBLE: garbage written into every returned array must not leak into later calls on the same or a fresh object
+    expected = [(nm, c) for nm, _, c in K.items]
+    K.scribble()
+    for who, d in (("same object", ddp), ("fresh object", DiscreteDP(*form.args))):
+        K2 = run_calls(d, Keeper())
+        wrong = [nm for (nm, c), (_, _, c2) in zip(expected, K2.items) if c.shape != c2.shape or not np.allclose(c, c2, rtol=1e-12, atol=1e-12)]
+        if wrong:
+            ctx.fail("result_aliases_internal_state", "after the caller overwrote returned arrays, the same calls on the %s give other values: %s" % (who, "; ".join(wrong[:4])),
+                     dict(inp, v1=v1, v2=v2, sigma1=sg1, sigma2=sg2, wrong=wrong, object=who), None, None)
+    if not args_unchanged(form.args, snap):
+        ctx.fail("result_aliases_internal_state", "overwriting returned arrays changed a constructor argument", inp, None, None)
+    ctx.count("alias:keep-and-recheck"); ctx.count("alias:scribble same+fresh"); ctx.count("alias:shares_memory")
+
+
 # ------------------------------------------------------------------ the check
 def run(ctx):
     thorough = ctx.tier == "thorough"
@@ -741,6 +846,9 @@ def run(ctx):
                 # ---- hardening audit: dress/dtype, state, non-mutation, buffers, conversion chains
                 if thorough or ii % 3 == 0:
                     harden_ops(ctx, inst, form, ddp, inp, rng, thorough)
+
+                # ---- result aliasing across calls (keep-and-recheck, scribble, shares_memory)
+                alias_audit(ctx, inst, form, ddp, inp, rng)
 
                 # ---- call SEQUENCES on one DiscreteDP object: every returned array is kept and checked only at the END
                 # (a result must not be overwritten by a later call; results of different calls must not alias)
